@@ -597,7 +597,11 @@ def m_push(I, state, frame, bi, t, args, span):
             I.rec.put("store_self", I.sitekey(frame, bi, -1),
                       dict(fn=frame.body.name, bb=bi, span=span, proj=a[2], value=x, old=None, stack=frame.stack, call="push"))
     else:
-        record_signal_push(I, state, frame, bi, span, ("local", a[1] if a[0] == "ref" else None), x, True)
+        if not record_signal_push(I, state, frame, bi, span, ("local", a[1] if a[0] == "ref" else None), x, True):
+            I.rec.put("push_local", I.sitekey(frame, bi, -1),
+                      dict(fn=frame.body.name, bb=bi, span=span, container=a[1] if a[0] == "ref" else None,
+                           key=(x[1], x[2]) if x[0] == "key" else (None, frozenset()), elem=x if x[0] != "key" else None,
+                           stack=frame.stack))
         coll_add(I, state, a, x)
     return [(TOP, state)]
 
@@ -729,7 +733,7 @@ def m_deque_drain(I, state, frame, bi, t, args, span):
         return [(("iter", ("drain_signals",)), state)]
     v = deref(I, state, a)
     if v[0] == "coll":
-        return [(("iter", ("av", v[1] if v[1] is not None else TOP)), state)]
+        return [(("iter", ("av", v[1])), state)]
     return [(("iter", ("av", TOP)), state)]
 
 
@@ -750,7 +754,7 @@ def m_map_keys(I, state, frame, bi, t, args, span):
 def m_set_iter(I, state, frame, bi, t, args, span):
     v = deref(I, state, args[0])
     if v[0] == "coll":
-        return [(("iter", ("av", v[1] if v[1] is not None else TOP)), state)]
+        return [(("iter", ("av", v[1])), state)]
     return [(("iter", ("av", TOP)), state)]
 
 
@@ -807,7 +811,7 @@ def index_common(I, state, frame, bi, t, args, span):
         return [(ref(("job", sym, kav[2], kav[3]), ()), state)]
     v = deref(I, state, a)
     if v[0] == "coll":
-        e = v[1] if v[1] is not None else TOP
+        e = v[1]
         rs = instantiate(I, state, frame, bi, ("av", e), span)
         return rs
     return [(TOP, state)]
@@ -830,7 +834,7 @@ def m_slice_iter(I, state, frame, bi, t, args, span):
         return [(("iter", ("av", key(None, ["topo", "alljobs"]))), state)]
     v = deref(I, state, a)
     if v[0] == "coll":
-        return [(("iter", ("av", v[1] if v[1] is not None else TOP)), state)]
+        return [(("iter", ("av", v[1])), state)]
     ty = I.operand_ty(frame, t["args"][0])
     if ty is not None and "ref" in ty and ty["ref"]["s"] in ("[usize]", "std::vec::Vec<usize>"):
         return [(("iter", ("av", key(None, ["usizevec"]))), state)]
@@ -845,7 +849,7 @@ def m_into_iter(I, state, frame, bi, t, args, span):
     if v[0] == "iter":
         return [(v, state)]
     if v[0] == "coll":
-        return [(("iter", ("av", v[1] if v[1] is not None else TOP)), state)]
+        return [(("iter", ("av", v[1])), state)]
     if v[0] == "adt" and v[1] in ("std::ops::Range", "core::ops::Range"):
         fs = adt_variants(v)[0]
         tag = "alljobs" if (len(fs) > 1 and fs[1][0] == "int" and len(fs[1]) > 2 and fs[1][2] == "jobs_len") else "range"
